@@ -1593,4 +1593,5 @@ class Interp:
                 cap.append((n, fr.env[n]))
         at = Atom('closure', self._closure_name(fi), tuple(cap))
         self.closures[at.key] = Closure(fi, fr.env, fr.self_term, fr.self_cls)
+        self.closures[at.key].def_depth = fr.depth
         return Term.of(at)
